@@ -540,7 +540,9 @@ func (vfs *OrefaFS) MkdirAll(path string, perm fs.FileMode) error {
 		dirName, _ = avfs.SplitAbs(vfs, dirName)
 	}
 
-	for _, absPath = range ds {
+	// ds lists the missing directories from the deepest one upwards: create them top-down.
+	for i := len(ds) - 1; i >= 0; i-- {
+		absPath = ds[i]
 		_, fileName := avfs.SplitAbs(vfs, absPath)
 
 		parent = vfs.createDir(parent, absPath, fileName, perm)
